@@ -442,7 +442,7 @@ def next (s : Vidya α) (input : α) : Except Panic (α × Vidya α) :=
     let dn := dn - change * ind (decide (change < 0))
     let out :=
       if up + dn ≠ 0 then
-        let cmo := sabs ((up - dn) / (up + dn))
+        let cmo := smin (sabs ((up - dn) / (up + dn))) 1
         let f_cmo := s.f * cmo
         input * f_cmo + (1 - f_cmo) * s.last_output
       else input
